@@ -13,7 +13,8 @@ func genC03() {
 	g := newGen("C03Version", "From Apko Require Import Base.Prelude Base.Regex.\nOpen Scope Z_scope.")
 	dep := iotaBlock(rel, "versionAny")
 	fd := findFunc(rel, "", "ResolvePackageNameVersionPin")
-	t, node := switchAssignTable(fd, "matcher")
+	// the switch on the operator sub-match: `matcher := parts[0][3]` today; found by what its tag stands for, not by the local's name
+	t, node := switchAssignTable(fd, "parts[0][3]")
 	if t == nil {
 		fail("%s: switch matcher not found in ResolvePackageNameVersionPin", rel)
 	}
